@@ -371,7 +371,9 @@ def _sdf_layout(x):
     return (
         f"def sdfL : Sdf.Layout :=\n  ⟨{ints(counts)[0][2]}, {fx[3]}, {fx[4]}, {sym[2]}, {ints(bond)[0][2]}, "
         f"{chars(lits(counts)[0])}, {chars(gap)}, {chars(atail)}, {chars(lits(bond)[0])}, "
-        f"{chars(lits(endl)[0])}, {chars(lits(sep)[0])}, {chars(_default_title(title[0][1]))}⟩\n"
+        f"{chars(lits(endl)[0])}, {chars(lits(sep)[0])}, {chars(_default_title(title[0][1]))},\n   "
+        + ", ".join(f"({a}, {b})" for fn, t, a, b, i in x.slices if fn == "load_one")
+        + "⟩\n"
     )
 
 
